@@ -77,6 +77,9 @@ var universes = [][3]string{
 	{"m1+m2", "all", "db2.m1"},
 	{"rp1", "m2@both", "m1+m1"},
 	{"all+all@db2", "m1+all", "all"},
+	// a task that names one fork key twice next to exactly one other subscriber of that key
+	{"m1+m1", "m1", "all"},
+	{"all+all@db2", "rp1", "db2.m1"},
 }
 
 // ---------------------------------------------------------------- events
@@ -111,6 +114,8 @@ func alphabet() []Event {
 		}
 	}
 	r = append(r, Event{Kind: "write", DB: "db1", RP: "rp2", M: "m1", K: 1}, Event{Kind: "write", DB: "db1", RP: "", M: "m1", K: 1})
+	// points on which a where() lambda cannot be evaluated (k is a string / k is missing): selected by unfiltered from() only
+	r = append(r, Event{Kind: "write", DB: "db1", RP: "rp1", M: "m1", K: -2}, Event{Kind: "write", DB: "db2", RP: "rp1", M: "m1", K: -3})
 	return r
 }
 
@@ -187,7 +192,14 @@ func run(t *testing.T, c Case) (p *problem, interesting bool) {
 				running[e.Task] = false
 			case "write":
 				seq++
-				pt := kit.MkPoint(e.M, nil, map[string]any{"k": int64(e.K), "seq": int64(seq)}, kit.T0.Add(time.Duration(seq)*time.Second))
+				fields := map[string]any{"k": int64(e.K), "seq": int64(seq)}
+				switch e.K {
+				case -2: // wrong type: the where() lambda fails to evaluate
+					fields["k"] = "1"
+				case -3: // field missing: the where() lambda fails to evaluate
+					delete(fields, "k")
+				}
+				pt := kit.MkPoint(e.M, nil, fields, kit.T0.Add(time.Duration(seq)*time.Second))
 				if err := env.Write(e.DB, e.RP, pt); err != nil {
 					p = &problem{"write-error", err.Error()}
 					return
@@ -248,7 +260,16 @@ func run(t *testing.T, c Case) (p *problem, interesting bool) {
 			p = &problem{"close-error", err.Error()}
 		}
 		kit.Wait()
+		badWrites := false
+		for _, e := range c.Hist {
+			if e.Kind == "write" && e.K < -1 {
+				badWrites = true
+			}
+		}
 		for _, e := range env.Diag.ErrorsCopy() {
+			if badWrites && e.Msg == "failed to evaluate WHERE expression" {
+				continue // the documented reaction to a point the lambda cannot be evaluated on
+			}
 			p = &problem{"node-error", fmt.Sprintf("%+v after %v", e, c.Hist)}
 		}
 	})
@@ -274,7 +295,7 @@ func hasDup(a []int) bool {
 
 func TestCheck(t *testing.T) {
 	r := rep.New("C02", "model_checking",
-		"stream routing on a real TaskMaster: 4 universes of 3 tasks drawn from 10 task shapes (one or two from() nodes, measurement / database / retentionPolicy / where filters, one or two declared dbrps, filtered+unfiltered from() in one task); every history up to the depth bound over the events start/stop/delete Ti (only when applicable) and write(db, rp, measurement, k) (10 write symbols incl. undeclared and default retention policy); a |log() sink under every from(); after every event the harness waits for quiescence and compares every sink with a reference router (subsequence of the writes made while the task ran that the task declares and the from() selects, once, in order). states = distinct (universe, running set) pairs reached; non-trivial = histories in which at least one write is delivered")
+		"stream routing on a real TaskMaster: 6 universes of 3 tasks drawn from 10 task shapes (one or two from() nodes, measurement / database / retentionPolicy / where filters, one or two declared dbrps, filtered+unfiltered from() in one task); every history up to the depth bound over the events start/stop/delete Ti (only when applicable) and write(db, rp, measurement, k) (12 write symbols incl. undeclared and default retention policy and points on which a where() lambda fails to evaluate); a |log() sink under every from(); after every event the harness waits for quiescence and compares every sink with a reference router (subsequence of the writes made while the task ran that the task declares and the from() selects, once, in order). states = distinct (universe, running set) pairs reached; non-trivial = histories in which at least one write is delivered")
 	defer r.Write()
 	r.Assumption("start is only issued for a task that is not running and stop/delete only for a running one (the task store guarantees this)")
 	r.Assumption("events are applied at quiescent states; races between control operations and writes are explored by the scheduler-controlled part (see level_note)")
